@@ -38,8 +38,16 @@ use vh::*;
 
 /// `tftopl`: (pl text, number of messages) or a deserialisation error.
 fn real_tftopl(tfm_bytes: &[u8]) -> Result<(String, Vec<String>), String> {
+    real_tftopl_fmt(tfm_bytes, None)
+}
+
+/// `forced`: tftopl's `--charcode-format ascii|octal`; `None`: the default rule.
+fn real_tftopl_fmt(tfm_bytes: &[u8], forced: Option<tfm::pl::CharDisplayFormat>) -> Result<(String, Vec<String>), String> {
     // Same display-format rule as tfm-bin/src/shared.rs (CharcodeFormat::Default).
     let out = tfm::algorithms::tfm_to_pl(tfm_bytes, 3, &|pl_file| {
+        if let Some(f) = forced {
+            return f;
+        }
         let scheme = match &pl_file.header.character_coding_scheme {
             None => String::new(),
             Some(s) => s.to_uppercase(),
@@ -225,6 +233,8 @@ struct Shape {
     nl: u32,   // NEXTLARGER links
     nv: u32,   // VARCHAR recipes
     np: u32,   // params
+    face: u32, // 1..=256: FACE byte face-1 stated in the property list (odd seeds: as an `F` code when below 18)
+    fbyte: u32, // 1..=256: the face byte of t0 is overwritten with fbyte-1 (TFM side)
     hx: u32,   // additional header words HEADER D 18 .. D 17+hx (238 gives the maximal header, lh = 256)
     lhcut: u32, // when 2..17: the header of t0 is cut down to that many words (only a hand-edited .tfm has such a header)
     vx: u32,   // systematic VARCHAR recipes over a tiny piece alphabet: that many characters (>= 1000: enumerate all recipes)
@@ -259,6 +269,8 @@ impl Shape {
             ("odd", self.odd as u64),
             ("vx", self.vx as u64),
             ("va", self.va as u64),
+            ("face", self.face as u64),
+            ("fbyte", self.fbyte as u64),
             ("hx", self.hx as u64),
             ("lhcut", self.lhcut as u64),
         ]
@@ -308,6 +320,8 @@ impl Shape {
             odd: g("odd") as u32,
             vx: g("vx") as u32,
             va: g("va") as u32,
+            face: g("face") as u32,
+            fbyte: g("fbyte") as u32,
             hx: g("hx") as u32,
             lhcut: g("lhcut") as u32,
             xc: l("xc"),
@@ -357,6 +371,8 @@ impl Shape {
             odd: if r.chance(1, 4) { 1 << r.below(7) } else { 0 },
             vx: *r.pick(&[0u32, 0, 0, 2, 3, 6, 12, 40]),
             va: 2 + r.below(2) as u32,
+            face: if r.chance(1, 4) { 1 + r.below(256) as u32 } else { 0 },
+            fbyte: if r.chance(1, 4) { 1 + r.below(256) as u32 } else { 0 },
             hx: *r.pick(&[0u32, 0, 0, 0, 0, 0, 1, 2, 100, 235, 236, 237, 238]),
             lhcut: *r.pick(&[0u32, 0, 0, 0, 0, 0, 0, 0, 0, 2, 3, 11, 12, 16, 17]),
             xc: vec![],
@@ -392,8 +408,20 @@ struct GChar {
     tag: GTag,
 }
 
+#[derive(Clone, Debug)]
+enum HNum {
+    /// FACE byte; `true`: written as `F MRR`-style code when the byte is below 18
+    Face(u8, bool),
+    /// HEADER D index value; `true`: hexadecimal
+    Header(u8, u32, bool),
+    Checksum(u32, bool),
+}
+
 #[derive(Clone, Debug, Default)]
 struct GFont {
+    /// seed for the written forms of numbers (0: the forms tftopl prints)
+    form_seed: u64,
+    nums: Vec<HNum>,
     head: Vec<String>,
     params: Vec<i32>,
     boundary: Option<u8>,
@@ -404,7 +432,21 @@ struct GFont {
 const LIG_NAMES: [&str; 8] = ["/LIG/", "/LIG/>", "/LIG/>>", "LIG/", "LIG/>", "/LIG", "/LIG>", "LIG"];
 
 fn fw(x: i32) -> String {
-    format!("R {}", FixWord(x))
+    let f = next_form();
+    if f == 0 {
+        return format!("R {}", FixWord(x));
+    }
+    // PLtoTF.2014.63: any run of `+`, `-` (and blanks) may precede the digits; each `-` flips the sign
+    let mag = FixWord(x.unsigned_abs().min(i32::MAX as u32) as i32);
+    let sign = match (x < 0, (f / 2) % 4) {
+        (false, 0) | (false, 1) => "",
+        (false, 2) => "+",
+        (false, _) => "--",
+        (true, 0) | (true, 1) => "-",
+        (true, 2) => "+-",
+        (true, _) => "---",
+    };
+    format!("{} {sign}{mag}", if f % 2 == 0 { "R" } else { "D" })
 }
 
 /// A pool of `n` distinct non-zero fix_words with |x| < 16, some negative, some adjacent.
@@ -434,6 +476,9 @@ fn value_pool(r: &mut Rng, n: u32, allow_zero: bool) -> Vec<i32> {
 fn gen_font(sh: &Shape) -> GFont {
     let mut r = Rng::new(sh.seed);
     let mut f = GFont::default();
+    FORM.with(|x| x.set(0));
+    // even seeds write every number the way tftopl does, odd seeds mix O/D/H/C and R/D forms
+    f.form_seed = if sh.seed % 2 == 1 { (sh.seed ^ 0xf0f0_1234) | 1 } else { 0 };
     // --- characters
     let nc = sh.nc.min(256) as usize;
     let mut codes: Vec<u8> = if nc == 256 {
@@ -688,15 +733,15 @@ fn gen_font(sh: &Shape) -> GFont {
     // --- header
     let h = sh.hdr;
     if h & 2 != 0 {
-        f.head.push(format!("(FAMILY {})", r.pick(&["CMR", "UNSPECIFIED", "A B", "ABCDEFGHIJKLMNOPQRS", "X"])));
+        f.head.push(format!("(FAMILY {})", r.pick(&["CMR", "UNSPECIFIED", "A B", "ABCDEFGHIJKLMNOPQRS", "X", "Times-Roman", "x_y.z+1"])));
     }
     if h & 4 != 0 {
-        f.head.push(format!("(FACE O {:o})", *r.pick(&[0u8, 1, 17, 18, 255, 6])));
+        f.nums.push(HNum::Face(*r.pick(&[0u8, 1, 17, 18, 255, 6]), false));
     }
     if h & 16 != 0 {
         let n = 1 + r.below(3);
         for i in 0..n {
-            f.head.push(format!("(HEADER D {} O {:o})", 18 + i, r.next_u64() as u32));
+            f.nums.push(HNum::Header(18 + i as u8, r.next_u64() as u32, false));
         }
     }
     // explicit number of additional header words (a separate generator: earlier seeds keep their fonts)
@@ -704,7 +749,7 @@ fn gen_font(sh: &Shape) -> GFont {
         let mut hr = Rng::new(sh.seed ^ 0x4ead);
         for i in 0..sh.hx.min(238) {
             let v = if hr.chance(1, 5) { 0 } else { hr.next_u64() as u32 };
-            f.head.push(format!("(HEADER D {} O {:o})", 18 + i, v));
+            f.nums.push(HNum::Header(18 + i as u8, v, false));
         }
     }
     let math_sy = h & 64 != 0 && h & 3 == 3;
@@ -716,15 +761,43 @@ fn gen_font(sh: &Shape) -> GFont {
     } else if h & 1 != 0 {
         f.head.push(format!(
             "(CODINGSCHEME {})",
-            r.pick(&["TEX TEXT", "UNSPECIFIED", "ASCII", "ABCDEFGHIJKLMNOPQRSTUVWXYZ0123456789ABC", "tex math italic"])
+            r.pick(&["TEX TEXT", "UNSPECIFIED", "ASCII", "ABCDEFGHIJKLMNOPQRSTUVWXYZ0123456789ABC", "tex math italic", "Adobe-Standard 8r", "a-b_c"])
         ));
     }
     f.head.push(format!("(DESIGNSIZE {})", fw(*r.pick(&[10 << 20, 1 << 20, (5 << 20) + 12345, 2047 << 20, (10 << 20) + 1]))));
     if h & 32 != 0 {
-        f.head.push(format!("(CHECKSUM O {:o})", r.next_u64() as u32));
+        f.nums.push(HNum::Checksum(r.next_u64() as u32, false));
     }
     if (h & 8 != 0 && h & 4 != 0) || (sh.odd & 64 != 0 && sh.vx == 0) {
         f.head.push("(SEVENBITSAFEFLAG TRUE)".into());
+    }
+    // FACE byte requested by the shape (all 256 values are swept by built-in cases)
+    if sh.face > 0 {
+        f.nums.retain(|n| !matches!(n, HNum::Face(..)));
+        f.nums.push(HNum::Face((sh.face - 1) as u8, sh.seed % 2 == 1));
+    }
+    // 32-bit numbers at the extremes of u32 and in both radices (a separate generator)
+    {
+        let mut er = Rng::new(sh.seed ^ 0xe47e);
+        const X: &[u32] = &[
+            0, 1, 7, 8, 0x0FFF_FFFF, 0x1000_0000, 0x1FFF_FFFF, 0x2000_0000, 0x7FFF_FFFF, 0x8000_0000, 0xFFFF_FFEF,
+            0xFFFF_FFF0, 0xFFFF_FFF1, 0xFFFF_FFF7, 0xFFFF_FFF8, 0xFFFF_FFF9, 0xFFFF_FFFA, 0xFFFF_FFFB, 0xFFFF_FFFC,
+            0xFFFF_FFFD, 0xFFFF_FFFE, 0xFFFF_FFFF,
+        ];
+        if sh.hdr & 32 == 0 && sh.hdr != 0 && er.chance(1, 3) {
+            f.nums.push(HNum::Checksum(0, false));
+        }
+        for n in f.nums.iter_mut() {
+            match n {
+                HNum::Header(_, v, hex) | HNum::Checksum(v, hex) => {
+                    if er.chance(1, 2) {
+                        *v = *er.pick(X);
+                    }
+                    *hex = er.chance(1, 2);
+                }
+                HNum::Face(..) => {}
+            }
+        }
     }
     let np = if math_sy && r.chance(9, 10) {
         22
@@ -765,15 +838,69 @@ fn gen_font(sh: &Shape) -> GFont {
     f
 }
 
+thread_local! {
+    /// State of the generator that picks the written form of each number in a generated property
+    /// list (0 = always octal characters / `R` reals, the form tftopl itself prints).
+    static FORM: std::cell::Cell<u64> = const { std::cell::Cell::new(0) };
+}
+
+fn next_form() -> u64 {
+    FORM.with(|f| {
+        let x = f.get();
+        if x == 0 {
+            return 0;
+        }
+        let mut r = Rng(x);
+        let v = r.next_u64();
+        f.set(r.0 | 1);
+        1 + v % 1000
+    })
+}
+
+/// A character code in one of the forms a property list allows: `O`, `D`, `H`, `C`.
 fn oc(c: u8) -> String {
-    format!("O {:o}", c)
+    match next_form() {
+        0 => format!("O {:o}", c),
+        x => match x % 4 {
+            0 => format!("O {:o}", c),
+            1 => format!("D {}", c),
+            2 => format!("H {:X}", c),
+            _ if c.is_ascii_graphic() && c != b'(' && c != b')' => format!("C {}", c as char),
+            _ => format!("O {:o}", c),
+        },
+    }
+}
+
+fn face_code(b: u8) -> String {
+    let w = ["M", "B", "L"][((b % 6) / 2) as usize];
+    let sl = ["R", "I"][(b % 2) as usize];
+    let e = ["R", "C", "E"][(b / 6) as usize];
+    format!("{w}{sl}{e}")
 }
 
 fn font_to_pl(f: &GFont) -> String {
+    font_to_pl_opt(f, true)
+}
+
+/// `numbers = false`: FACE / HEADER / CHECKSUM are left out (the caller sets them on the `tfm::File`).
+fn font_to_pl_opt(f: &GFont, numbers: bool) -> String {
+    FORM.with(|x| x.set(f.form_seed));
     let mut s = String::new();
     for h in &f.head {
         s.push_str(h);
         s.push('\n');
+    }
+    if numbers {
+        for n in &f.nums {
+            match n {
+                HNum::Face(b, code) if *code && *b < 18 => s.push_str(&format!("(FACE F {})\n", face_code(*b))),
+                HNum::Face(b, _) => s.push_str(&format!("(FACE O {:o})\n", b)),
+                HNum::Header(i, v, false) => s.push_str(&format!("(HEADER D {i} O {:o})\n", v)),
+                HNum::Header(i, v, true) => s.push_str(&format!("(HEADER D {i} H {:X})\n", v)),
+                HNum::Checksum(v, false) => s.push_str(&format!("(CHECKSUM O {:o})\n", v)),
+                HNum::Checksum(v, true) => s.push_str(&format!("(CHECKSUM H {:X})\n", v)),
+            }
+        }
     }
     if !f.params.is_empty() {
         s.push_str("(FONTDIMEN\n");
@@ -903,6 +1030,8 @@ fn perturb_layout(file: &mut tfm::File, seed: u64) {
 struct RawView {
     /// `<n> words <m> (char remainder) <k> kerns` as the driver's `<raw>`
     raw: Vec<i64>,
+    /// the same with the lig remainders of *all* characters that carry a lig tag (existing or not)
+    raw_all: Vec<i64>,
     /// NEXTLARGER of the existing characters, `(char, next)`
     lists: Vec<(u8, u8)>,
     /// extensible recipes of the existing characters, `(char, [top, mid, bot, rep])`
@@ -910,6 +1039,18 @@ struct RawView {
     /// header byte 68 (> 127 = SEVENBITSAFEFLAG TRUE), when the header has it
     flag: Option<bool>,
     max_skip: u8,
+    lh: usize,
+    np: usize,
+    checksum: u32,
+    design_size: u32,
+    /// header byte 71, when lh >= 18
+    face: Option<u8>,
+    /// header words 18.. (when lh > 18)
+    extra: Vec<u32>,
+    /// per existing character: width, height, depth, italic correction (values, through the index
+    /// bytes and the four tables), tag kind 0..3 and its payload (NEXTLARGER target / the four recipe bytes)
+    chars: Vec<(u8, [i32; 4], u8, Vec<u8>)>,
+    params: Vec<i32>,
 }
 
 fn raw_view(t: &[u8]) -> Option<RawView> {
@@ -936,10 +1077,14 @@ fn raw_view(t: &[u8]) -> Option<RawView> {
         }
     }
     let mut ligs: Vec<(u8, u8)> = vec![];
+    let mut ligs_all: Vec<(u8, u8)> = vec![];
     let mut lists = vec![];
     let mut recipes = vec![];
     for k in 0..nc {
         let b = &t[ci + 4 * k..ci + 4 * k + 4];
+        if b[2] % 4 == 1 {
+            ligs_all.push(((bc + k) as u8, b[3]));
+        }
         if b[0] == 0 {
             continue; // the character does not exist
         }
@@ -957,17 +1102,70 @@ fn raw_view(t: &[u8]) -> Option<RawView> {
             _ => {}
         }
     }
-    raw.push(ligs.len() as i64);
-    for (c, r) in &ligs {
-        raw.extend([*c as i64, *r as i64]);
+    let mut raw_all = raw.clone();
+    for (dst, src) in [(&mut raw, &ligs), (&mut raw_all, &ligs_all)] {
+        dst.push(src.len() as i64);
+        for (c, r) in src {
+            dst.extend([*c as i64, *r as i64]);
+        }
+        dst.push(nk as i64);
+        for i in 0..nk {
+            let b = &t[kb + 4 * i..kb + 4 * i + 4];
+            dst.push(i32::from_be_bytes([b[0], b[1], b[2], b[3]]) as i64);
+        }
     }
-    raw.push(nk as i64);
-    for i in 0..nk {
-        let b = &t[kb + 4 * i..kb + 4 * i + 4];
-        raw.push(i32::from_be_bytes([b[0], b[1], b[2], b[3]]) as i64);
+    let fix = |base: usize, n: usize, i: usize| -> i32 {
+        if i < n {
+            let o = base + 4 * i;
+            i32::from_be_bytes([t[o], t[o + 1], t[o + 2], t[o + 3]])
+        } else {
+            i32::MIN // an index beyond the table (tftopl warns)
+        }
+    };
+    let wb = ci + 4 * nc;
+    let hb = wb + 4 * nw;
+    let db = hb + 4 * nh;
+    let ib = db + 4 * nd;
+    let pb = eb + 4 * ne;
+    let mut chars = vec![];
+    for k in 0..nc {
+        let b = &t[ci + 4 * k..ci + 4 * k + 4];
+        if b[0] == 0 {
+            continue;
+        }
+        let dims = [
+            fix(wb, nw, b[0] as usize),
+            fix(hb, nh, (b[1] / 16) as usize),
+            fix(db, nd, (b[1] % 16) as usize),
+            fix(ib, ni, (b[2] / 4) as usize),
+        ];
+        let kind = b[2] % 4;
+        let payload: Vec<u8> = match kind {
+            2 => vec![b[3]],
+            3 if (b[3] as usize) < ne => t[eb + 4 * b[3] as usize..eb + 4 * b[3] as usize + 4].to_vec(),
+            _ => vec![],
+        };
+        chars.push(((bc + k) as u8, dims, kind, payload));
     }
+    let params: Vec<i32> = (0..np).map(|i| fix(pb, np, i)).collect();
     let flag = if lh >= 18 { Some(t[24 + 68] > 127) } else { None };
-    Some(RawView { raw, lists, recipes, flag, max_skip })
+    let word = |i: usize| u32::from_be_bytes([t[24 + 4 * i], t[25 + 4 * i], t[26 + 4 * i], t[27 + 4 * i]]);
+    Some(RawView {
+        raw,
+        raw_all,
+        lists,
+        recipes,
+        flag,
+        max_skip,
+        lh,
+        np,
+        checksum: if lh >= 1 { word(0) } else { 0 },
+        design_size: if lh >= 2 { word(1) } else { 0 },
+        face: if lh >= 18 { Some(t[24 + 71]) } else { None },
+        extra: (18..lh).map(word).collect(),
+        chars,
+        params,
+    })
 }
 
 /// PLtoTF's seven-bit safety of the font in `v`, decided by Lean (`safe7`).
@@ -1070,6 +1268,8 @@ fn run_pair(p: &tfm::ligkern::CompiledProgram, l: Option<Char>, r: Option<Char>)
 // ------------------------------------------------------------------------------------------
 
 struct C11 {
+    /// The lig/kern sub-files of t1 (and t2) are exactly what the model of the current code predicts.
+    explained: bool,
     /// A raw-word rule difference found before the defect class of the case is known.
     pending_raw: Option<String>,
     /// Suffix for failure signatures of the current case (identifies a known defect class).
@@ -1184,34 +1384,8 @@ impl C11 {
             return;
         }
         let mut class_tags: Vec<&'static str> = vec![];
-        // Known defect class C11-b: a LABEL that no step follows (entry point = number of
-        // instructions). Failures of such a case carry a suffix so that the known finding
-        // cannot hide a different defect.
         self.sig_suffix = String::new();
-        if let Ok((plf, _)) = caught(|| tfm::pl::File::from_pl_source_code(&pl0)) {
-            let n = plf.lig_kern_program.instructions.len();
-            let dangling = plf.lig_kern_entrypoints(true).values().any(|e| *e as usize >= n)
-                || plf.lig_kern_program.left_boundary_char_entrypoint.map(|e| e as usize >= n).unwrap_or(false);
-            if dangling {
-                class_tags.push("t0:label-without-steps");
-                self.sig_suffix = " [label without steps]".into();
-            }
-        }
-        // Known defect class C11-f: a word with skip byte > 128 (redirect word) that a SKIP/fall-through
-        // chain reaches. tftopl prints a bare STOP for it and counts it in adjusted SKIPs.
-        if let Ok(true) = caught(|| {
-            let (f, _) = tfm::File::deserialize(t0);
-            let mut file = f.expect("t0 was readable");
-            let _ = file.validate_and_fix();
-            let plf: tfm::pl::File = file.into();
-            let (prog, entries) = pl_program_view(&plf);
-            prog.reachable_iter(entries.iter().map(|(c, e)| (Char(*c), *e as u16)))
-                .zip(prog.instructions.iter())
-                .any(|(r, i)| matches!(r, tfm::ligkern::lang::ReachableIterItem::Reachable { .. }) && matches!(i.operation, Operation::EntrypointRedirect(..)))
-        }) {
-            class_tags.push("t0:reachable-redirect-word");
-            self.sig_suffix.push_str(" [reachable redirect word]");
-        }
+        self.explained = false;
         let (t1, w1) = match caught(|| real_pltotf(&pl0)) {
             Err(p) => {
                 out.fail(Kind::ImplPanic, "trip1", format!("panic {}", strip_msg(&p)), format!("pl_to_tfm(tfm_to_pl(t0)) panicked: {p}\nt0 = {}", hex(t0)));
@@ -1219,10 +1393,45 @@ impl C11 {
             }
             Ok(x) => x,
         };
+        // The model of the current code predicts the lig/kern sub-file of t1 from the raw bytes of t0
+        // (decodeRaw, packKerns, unpackAll, printParse, unpackKerns, pack, encodeWord - no /repo code).
+        // It also tells whether t0 has the shape of a known finding: C11-f (a reachable word is a
+        // redirect word) or C11-b (a label without a step after the trip). A failure of such a case is
+        // attributed to the known finding only if the prediction is exact for t0 -> t1 and t1 -> t2:
+        // then the recorded deviation is the only one.
+        let rv0 = raw_view(t0);
+        let rv1_pred = raw_view(&t1);
+        let mut explained01 = false;
+        if let (Some(v0), Some(v1)) = (&rv0, &rv1_pred) {
+            let reply = drv.ask(&format!("predict {}", join(&v0.raw_all)));
+            if let Some((flags, pred)) = reply.split_once(" | ") {
+                if flags.contains("dl=1") {
+                    class_tags.push("t0:label-without-steps");
+                    self.sig_suffix = " [label without steps]".into();
+                }
+                if flags.contains("rr=1") {
+                    class_tags.push("t0:reachable-redirect-word");
+                    self.sig_suffix.push_str(" [reachable redirect word]");
+                }
+                explained01 = pred.trim() == join(&v1.raw_all);
+                if w1.is_empty() || w1.iter().all(|w| w == "NotReallySevenBitSafe") {
+                    if explained01 {
+                        class_tags.push("predict:t1-lig/kern-sub-file-as-predicted");
+                    } else if self.sig_suffix.is_empty() {
+                        out.fail(
+                            Kind::ImplVsModel,
+                            "predict",
+                            "lig/kern sub-file of t1 differs from the model's prediction",
+                            format!("model: {}\nimpl:  {}", trunc_s(pred, 1200), trunc_s(&join(&v1.raw_all), 1200)),
+                        );
+                    }
+                }
+            }
+        }
+        self.explained = explained01;
         // Seven-bit safety (S by Lean on the raw bytes of t0): pltotf must raise
         // NotReallySevenBitSafe on tftopl's output exactly when t0 carries the flag and the font
         // is not safe by PLtoTF's definition.
-        let rv0 = raw_view(t0);
         let safe0 = rv0.as_ref().map(|v| lean_safe7(v, drv));
         let warned7 = w1.iter().any(|w| w == "NotReallySevenBitSafe");
         if let (Some(v), Some(safe)) = (&rv0, safe0) {
@@ -1246,6 +1455,25 @@ impl C11 {
                 );
             }
         }
+        // pltotf must read tftopl's warning-free output back silently, except for the two things a
+        // property list cannot carry: more than 254 parameters, and a seven-bit-safe flag on a font
+        // that is not seven-bit safe (checked against Lean's safe7 above).
+        {
+            let np_too_big = rv0.as_ref().map(|v| v.np > 254).unwrap_or(false);
+            let unexpected: Vec<&String> = w1
+                .iter()
+                .filter(|w| !(*w == "NotReallySevenBitSafe" || (np_too_big && matches!(w.as_str(), "ParameterNumberIsTooBig" | "SmallIntegerIsTooBig" | "ParameterNumberIsZero"))))
+                .collect();
+            if let Some(k) = unexpected.first() {
+                out.fail(
+                    Kind::ImplVsSpec,
+                    "trip1",
+                    format!("pltotf warns on tftopl's warning-free output: {k}"),
+                    format!("warnings: {:?}", &w1[..w1.len().min(8)]),
+                );
+                return;
+            }
+        }
         if !w1.is_empty() {
             // "converts without warnings" covers both halves of the first conversion: a file
             // whose tftopl output pltotf does not read back silently (more than 254 parameters,
@@ -1267,6 +1495,61 @@ impl C11 {
                     "seven-bit-safe flag of t1 is not the safety of the font",
                     format!("safe7 (Lean, on t0): {safe}; flag byte of t1 set: {:?}", v1.flag),
                 );
+            }
+        }
+        // Characters and parameters of t0 and t1 at byte level (independent of the Rust reader): the
+        // same characters, each with the same four dimension *values*, the same kind of tag, the same
+        // NEXTLARGER target and the same recipe bytes; the same parameter words.
+        if let (Some(v0), Some(v1)) = (&rv0, &rv1) {
+            let c0: Vec<u8> = v0.chars.iter().map(|c| c.0).collect();
+            let c1: Vec<u8> = v1.chars.iter().map(|c| c.0).collect();
+            if c0 != c1 {
+                out.fail(Kind::ImplVsSpec, "same-font-raw", "raw characters differ: set of characters", format!("t0 {} characters, t1 {}", c0.len(), c1.len()));
+            } else {
+                for (a, b) in v0.chars.iter().zip(&v1.chars) {
+                    if a.1 != b.1 {
+                        let which = ["width", "height", "depth", "italic"][(0..4).find(|i| a.1[*i] != b.1[*i]).unwrap()];
+                        out.fail(Kind::ImplVsSpec, "same-font-raw", format!("raw characters differ: {which}"), format!("char {}: t0 {:?} t1 {:?}", a.0, a.1, b.1));
+                        break;
+                    }
+                    if a.2 != b.2 || (a.2 >= 2 && a.3 != b.3) {
+                        out.fail(
+                            Kind::ImplVsSpec,
+                            "same-font-raw",
+                            format!("raw characters differ: tag {} -> {}", a.2, b.2),
+                            format!("char {}: t0 tag {} {:?} t1 tag {} {:?}", a.0, a.2, a.3, b.2, b.3),
+                        );
+                        break;
+                    }
+                }
+            }
+            if v0.params != v1.params {
+                out.fail(Kind::ImplVsSpec, "same-font-raw", "raw parameters differ", format!("t0 {:?}\nt1 {:?}", &v0.params[..v0.params.len().min(30)], &v1.params[..v1.params.len().min(30)]));
+            }
+        }
+        // The numeric header fields of t0 and t1, byte for byte (independent of the Rust reader).
+        if let (Some(v0), Some(v1)) = (&rv0, &rv1) {
+            if v0.lh >= 18 {
+                if let Some(b) = v0.face {
+                    out.tag(format!("face:{}", if b < 18 { "standard" } else if b == 18 { "18" } else { "other" }));
+                }
+                for (name, a, b) in [("checksum", v0.checksum, v1.checksum), ("design size", v0.design_size, v1.design_size)] {
+                    if a != b {
+                        out.fail(Kind::ImplVsSpec, "same-font-raw", format!("raw header differs: {name}"), format!("t0 {a:#x} t1 {b:#x}"));
+                    }
+                }
+                if v0.face != v1.face {
+                    out.fail(Kind::ImplVsSpec, "same-font-raw", "raw header differs: face byte", format!("t0 {:?} t1 {:?}", v0.face, v1.face));
+                }
+                if v0.extra != v1.extra {
+                    let i = (0..v0.extra.len().max(v1.extra.len())).find(|i| v0.extra.get(*i) != v1.extra.get(*i)).unwrap_or(0);
+                    out.fail(
+                        Kind::ImplVsSpec,
+                        "same-font-raw",
+                        "raw header differs: additional word",
+                        format!("word {}: t0 {:?} t1 {:?} (lh {} / {})", 18 + i, v0.extra.get(i), v1.extra.get(i), v0.lh, v1.lh),
+                    );
+                }
             }
         }
         // The lig/kern programs of t0 and t1 decoded by Lean from the raw words (independent of the
@@ -1313,6 +1596,17 @@ impl C11 {
             Ok(Ok((pl1, m1, t2, w2))) => {
                 dump("pl1.pl", pl1.as_bytes());
                 dump("t2.tfm", &t2);
+                // (when tftopl warns on t1 the second trip leaves the domain of the model - it "fixes"
+                // the file first -: the exact prediction of t1 is then all that can be asked for)
+                if self.explained && m1.is_empty() {
+                    self.explained = match (raw_view(&t1), raw_view(&t2)) {
+                        (Some(v1), Some(v2)) => {
+                            let reply = drv.ask(&format!("predict {}", join(&v1.raw_all)));
+                            reply.split_once(" | ").map(|(_, pred)| pred.trim() == join(&v2.raw_all)).unwrap_or(false)
+                        }
+                        _ => false,
+                    };
+                }
                 if !m1.is_empty() {
                     let first = m1[0].lines().find(|l| !l.trim().is_empty()).unwrap_or("").to_string();
                     let sig: String = first.chars().filter(|c| !c.is_ascii_digit() && *c != '\'').collect();
@@ -1328,7 +1622,7 @@ impl C11 {
                     out.fail(
                         Kind::ImplVsSpec,
                         "idempotent",
-                        format!("t1 != t2 in {sec}{}", self.sig_suffix),
+                        format!("t1 != t2 in {sec}"),
                         format!("{d}\nt1 = {}\nt2 = {}", hex(&t1), hex(&t2)),
                     );
                 } else {
@@ -1338,6 +1632,26 @@ impl C11 {
             }
         }
         out.tag(if t0 == &t1[..] { "t0=t1 (already canonical)" } else { "t0!=t1 (normalised)" });
+        // tftopl's other character-code formats (--charcode-format ascii / octal) must lead to the same t1
+        if t0.len() <= 40_000 {
+            for (name, fmt) in [("ascii", tfm::pl::CharDisplayFormat::Ascii), ("octal", tfm::pl::CharDisplayFormat::Octal)] {
+                match caught(|| real_tftopl_fmt(t0, Some(fmt)).map(|(pl, m)| (real_pltotf(&pl), m))) {
+                    Err(p) => out.fail(Kind::ImplPanic, "formats", format!("panic {}", strip_msg(&p)), format!("charcode format {name}: {p}")),
+                    Ok(Err(e)) => out.fail(Kind::ImplVsSpec, "formats", format!("charcode format {name}: t0 unreadable"), e),
+                    Ok(Ok(((tf, wf), mf))) => {
+                        if !mf.is_empty() || wf != w1 || tf != t1 {
+                            out.fail(
+                                Kind::ImplVsSpec,
+                                "formats",
+                                format!("charcode format {name} leads to a different .tfm"),
+                                format!("tftopl messages {mf:?}, pltotf warnings {wf:?} (default format: {w1:?}), {}", first_diff(&tf, &t1)),
+                            );
+                        }
+                    }
+                }
+            }
+            out.tag("formats:ascii+octal");
+        }
 
         // ---- same font: decode both with the real reader
         let (d0, d1) = match (caught(|| decode(t0)), caught(|| decode(&t1))) {
@@ -1438,7 +1752,8 @@ impl C11 {
                 if a != b {
                     sigs.push(match (a, b) {
                         (None, Some(d)) if d == "UNSPECIFIED" => "header normalised: short header padded with PL defaults",
-                        (Some(x), Some(y)) if x.eq_ignore_ascii_case(y) => "header normalised: lower-case letters in strings upper-cased",
+                        // exactly the recorded normalisation: every lower-case letter upper-cased, nothing else
+                        (Some(x), Some(y)) if *y == x.to_ascii_uppercase() => "header normalised: lower-case letters in strings upper-cased",
                         _ => name,
                     });
                 }
@@ -1586,7 +1901,7 @@ impl C11 {
             bad = Some(format!("pairs with replacements differ: only in t0 {only0:?}, only in t1 {only1:?}"));
         }
         if let Some(b) = bad {
-            out.fail(Kind::ImplVsSpec, "ligkern", format!("compiled lig/kern behaviour differs{}", self.sig_suffix), b);
+            out.fail(Kind::ImplVsSpec, "ligkern", "compiled lig/kern behaviour differs", b);
         }
         if !pairs.is_empty() {
             out.tag("ligkern:pairs-compared");
@@ -1596,7 +1911,7 @@ impl C11 {
         let (v1, _) = program_view(d1);
         let reply = drv.ask(&format!("sem {} {}", join(&v0), join(&v1)));
         if reply != "same" {
-            out.fail(Kind::ImplVsSpec, "ligkern-rule", format!("C05.rule differs between t0 and t1{}", self.sig_suffix), reply);
+            out.fail(Kind::ImplVsSpec, "ligkern-rule", "C05.rule differs between t0 and t1", reply);
         }
     }
 
@@ -1700,7 +2015,7 @@ impl C11 {
         let verdict = drv.ask(&format!("sem {input} {q}"));
         if verdict != "same" {
             if parts[2] == "nwf=1" {
-                out.fail(Kind::ImplVsSpec, "norm-rule", format!("normalisation changes C05.rule{}", self.sig_suffix), format!("{verdict}\ninput: {}\noutput: {}", trunc_s(&input, 1500), trunc_s(&q, 1500)));
+                out.fail(Kind::ImplVsSpec, "norm-rule", "normalisation changes C05.rule", format!("{verdict}\ninput: {}\noutput: {}", trunc_s(&input, 1500), trunc_s(&q, 1500)));
             } else {
                 out.tag("norm:rule-changes-outside-hypotheses");
             }
@@ -1783,6 +2098,35 @@ fn dump(name: &str, data: &[u8]) {
     }
 }
 
+/// What the generated property list says about the numeric header fields:
+/// (CHECKSUM if stated, header words 18.., FACE byte if stated).
+fn expected_header(f: &GFont) -> (Option<u32>, Vec<u32>, Option<u8>) {
+    let mut checksum = None;
+    let mut extra: Vec<u32> = vec![];
+    let mut face = None;
+    for n in &f.nums {
+        match n {
+            HNum::Checksum(v, _) => checksum = Some(*v),
+            HNum::Face(b, _) => face = Some(*b),
+            HNum::Header(i, v, _) => {
+                let k = *i as usize - 18;
+                if extra.len() <= k {
+                    extra.resize(k + 1, 0);
+                }
+                extra[k] = *v;
+            }
+        }
+    }
+    (checksum, extra, face)
+}
+
+/// Overwrite the face byte (header byte 71) of a .tfm whose header has it.
+fn patch_face(t: &mut [u8], b: u8) {
+    if t.len() >= 24 + 72 && u16::from_be_bytes([t[2], t[3]]) >= 18 {
+        t[24 + 71] = b;
+    }
+}
+
 /// Cut the header of a .tfm down to `new_lh` words (sub-file sizes adjusted).
 fn cut_header(t: &[u8], new_lh: usize) -> Vec<u8> {
     if t.len() < 24 {
@@ -1802,7 +2146,10 @@ fn cut_header(t: &[u8], new_lh: usize) -> Vec<u8> {
 }
 
 fn shape_t0(sh: &Shape, raw: bool) -> Result<Vec<u8>, String> {
-    let t = shape_t0_uncut(sh, raw)?;
+    let mut t = shape_t0_uncut(sh, raw)?;
+    if sh.fbyte > 0 {
+        patch_face(&mut t, (sh.fbyte - 1) as u8);
+    }
     if (2..18).contains(&sh.lhcut) {
         Ok(cut_header(&t, sh.lhcut as usize))
     } else {
@@ -1815,6 +2162,9 @@ fn shape_t0_uncut(sh: &Shape, raw: bool) -> Result<Vec<u8>, String> {
     let pl = font_to_pl(&f);
     dump("src.pl", pl.as_bytes());
     if raw {
+        // The numeric header fields do not go through the PL reader here: the harness puts them
+        // into the `tfm::File` / the bytes itself, so that t0 really holds the generated values.
+        let pl = font_to_pl_opt(&f, false);
         let (plf, w) = tfm::pl::File::from_pl_source_code(&pl);
         if !w.is_empty() {
             return Err(format!("{:?}", w[0].kind));
@@ -1854,8 +2204,17 @@ fn shape_t0_uncut(sh: &Shape, raw: bool) -> Result<Vec<u8>, String> {
             }
             file.extensible_chars = table;
         }
+        let (x_checksum, x_extra, x_face) = expected_header(&f);
+        if let Some(v) = x_checksum {
+            file.header.checksum = Some(v);
+        }
+        file.header.additional_data = x_extra;
         perturb_layout(&mut file, sh.seed);
-        Ok(file.serialize())
+        let mut t = file.serialize();
+        if let Some(b) = x_face {
+            patch_face(&mut t, b);
+        }
+        Ok(t)
     } else {
         let (b, w) = real_pltotf(&pl);
         if !w.is_empty() {
@@ -1924,6 +2283,23 @@ impl Property for C11 {
         // large lig/kern and kern sub-files (reachable: the leading run is labelled for even seeds)
         v.push(Shape { nc: 40, nw: 4, chains: 20, len: 3, labels: 2, pad: 6000, lig: 10, seed: 800, ..base.clone() }.show("gen"));
         v.push(Shape { nc: 40, nw: 4, chains: 20, len: 3, labels: 2, pad: 14000, lig: 0, bc: 1, lb: 1, seed: 802, ..base.clone() }.show("gen"));
+        // a redirect word in the middle of the table: used by character 98 as its entry point, jumped
+        // over by the step of character 97 (SKIP 1), between that step and its target
+        v.push("tprog -1 -1 3 1 65 0 5 0 -1 0 3 2 1 -1 66 0 6 0 2 97 0 98 1 0".into());
+        v.push("tprog 35 -1 6 -1 35 3 0 1 2 65 0 5 0 -1 70 0 9 0 -1 35 3 5 1 0 66 0 6 0 -1 67 0 7 0 3 97 1 98 3 99 2 0".into());
+        // FACE: every byte through the property list (octal, and `F` codes below 18) and through the bytes of t0
+        for b in 0..256u32 {
+            v.push(Shape { nc: 1, nw: 1, face: b + 1, seed: 1000 + b as u64, ..base.clone() }.show("gen"));
+            v.push(Shape { nc: 1, nw: 1, fbyte: b + 1, seed: 2000 + b as u64, ..base.clone() }.show("raw"));
+        }
+        for b in 0..18u32 {
+            v.push(Shape { nc: 1, nw: 1, face: b + 1, seed: 3001 + 2 * b as u64, ..base.clone() }.show("gen")); // odd seed: `FACE F xyz`
+        }
+        // CHECKSUM and HEADER words at the extremes of u32, octal and hexadecimal
+        for k in 0..40u64 {
+            v.push(Shape { nc: 1, nw: 1, hdr: 0b0011_0000, seed: 4000 + k, ..base.clone() }.show("gen"));
+            v.push(Shape { nc: 1, nw: 1, hdr: 0b0011_0000, hx: 6, seed: 4100 + k, ..base.clone() }.show("raw"));
+        }
         // VARCHAR: every recipe over a 2- and a 3-character piece alphabet (54 / 192 recipes), and random draws
         for (va, nc) in [(2u32, 60u32), (3, 200)] {
             v.push(Shape { nc, nw: 3, vx: 1000, va, seed: 900 + va as u64, ..base.clone() }.show("gen"));
@@ -1967,7 +2343,7 @@ impl Property for C11 {
     }
     fn generate(&mut self, ctx: &Ctx, rng: &mut Rng) -> Vec<String> {
         let mut v = vec![];
-        let (n_gen, n_raw, n_pack, n_kerns) = if ctx.thorough { (6000, 3000, 20000, 4000) } else { (500, 250, 2500, 500) };
+        let (n_gen, n_raw, n_pack, n_kerns) = if ctx.thorough { (6000, 3000, 20000, 4000) } else { (450, 220, 1500, 300) };
         let n_norm = if ctx.thorough { 12000 } else { 900 };
         let mut r = rng.fork();
         for i in 0..n_gen {
@@ -2027,21 +2403,57 @@ impl Property for C11 {
                 w[1] = l;
                 w[3 + 5 * (n - 1) + 3] = l;
             }
+            // Redirect words in the *middle* of the table, used as the entry point of a character
+            // (so they are pass-through, not reachable) and jumped over by the step in front of them
+            // or by an earlier step: word j-1 gets SKIP 1..3 across word j, word j redirects to a step.
+            let mut forced: Vec<(usize, i64)> = vec![];
+            if body >= 4 && r.chance(1, 3) {
+                let k = 1 + r.below(3) as usize;
+                for _ in 0..k {
+                    let j = front + 1 + r.below(body as u64 - 2) as usize; // not the first, not the last body word
+                    let last_body = front + body - 1;
+                    let is_step = |w: &Vec<i64>, i: usize| w[3 + 5 * i + 2] != 3;
+                    if !is_step(&w, j - 1) || !is_step(&w, j + 1) || forced.iter().any(|(x, _)| *x + 1 >= j && *x <= j + 1) {
+                        continue;
+                    }
+                    let target = (j + 1 + r.below((last_body - j) as u64) as usize).min(last_body);
+                    if !is_step(&w, target) {
+                        continue;
+                    }
+                    let span = (1 + r.below(3) as usize).min(last_body - j);
+                    w[3 + 5 * (j - 1)] = span as i64; // SKIP across the redirect word
+                    let o = 3 + 5 * j;
+                    w[o] = -1;
+                    w[o + 1] = if rb >= 0 { rb } else { 0 };
+                    w[o + 2] = 3;
+                    w[o + 3] = target as i64;
+                    w[o + 4] = 1;
+                    forced.push((j - 1, j as i64 - 1)); // a label on the skipping step
+                    forced.push((j, j as i64)); // a label on the redirect word (unpacks to its target)
+                }
+            }
             let m: usize = if body == 0 { 0 } else { *r.pick(&[0usize, 1, 1, 2, 3, 5, 12]) };
             let mut chars: Vec<u8> = (0..=255).collect();
             for i in (1..256).rev() {
                 let j = r.below(i as u64 + 1) as usize;
                 chars.swap(i, j);
             }
+            let m = (m + forced.len()).min(256);
             chars.truncate(m);
             chars.sort();
             w.push(m as i64);
-            for c in chars {
-                let e = if r.chance(1, 30) { r.below(n as u64 + 1) as i64 } else { (front + r.below(body as u64) as usize) as i64 };
+            for (k, c) in chars.into_iter().enumerate() {
+                let e = if k < forced.len() {
+                    forced[k].1
+                } else if r.chance(1, 30) {
+                    r.below(n as u64 + 1) as i64
+                } else {
+                    (front + r.below(body as u64) as usize) as i64
+                };
                 w.extend([c as i64, e]);
             }
             w.push(0);
-            if n <= 250 && r.chance(1, 3) {
+            if n <= 250 && (r.chance(1, 4) || (!forced.is_empty() && r.chance(1, 3))) {
                 v.push(format!("tprog {}", join(&w)));
             }
             v.push(format!("norm {}", join(&w)));
@@ -2182,10 +2594,97 @@ impl Property for C11 {
                         // and `redir` streams.)
                         out.tag(format!("gen:pltotf-panics at {} (no t0)", strip_msg(&p)));
                     }
-                    Ok(Err(w)) => out.tag(format!("gen:discarded ({})", w.split('(').next().unwrap_or(""))),
+                    Ok(Err(w)) => {
+                        let kind = w.split('(').next().unwrap_or("").to_string();
+                        out.tag(format!("gen:discarded ({kind})"));
+                        // The generated property lists are well-formed: only semantic warnings can
+                        // be legitimate (loops, seven-bit safety, table too long).
+                        let legit = ["CycleInLigKernProgram", "NotReallySevenBitSafe", "CycleInNextLargerProgram", "LigTableIsTooBig"];
+                        if sh.odd == 0 && !legit.contains(&kind.as_str()) {
+                            out.fail(
+                                Kind::ImplVsSpec,
+                                "source",
+                                format!("pl_to_tfm warns on a well-formed generated property list: {kind}"),
+                                format!("warning: {w}"),
+                            );
+                        }
+                    }
                     Ok(Ok(t0)) => {
                         if sh.pad + sh.chains * sh.len > 255 {
                             out.tag("gen:may-exceed-255-instr");
+                        }
+                        // S on the source side: the numeric header fields the property list states
+                        // (CHECKSUM, HEADER words, FACE; octal, hexadecimal, F codes) are the bytes of t0.
+                        if sh.odd == 0 && sh.lhcut == 0 {
+                            let f = gen_font(&sh);
+                            let (xc, xe, xf) = expected_header(&f);
+                            if let Some(v) = raw_view(&t0) {
+                                if !f.nums.is_empty() {
+                                    out.tag("source:header-numbers");
+                                }
+                                if f.nums.iter().any(|n| matches!(n, HNum::Header(_, v, _) | HNum::Checksum(v, _) if *v >= 0xFFFF_FFF0)) {
+                                    out.tag("source:u32>=FFFFFFF0");
+                                }
+                                if let Some(c) = xc {
+                                    if v.checksum != c {
+                                        out.fail(Kind::ImplVsSpec, "source", "header number of the property list is not in t0: CHECKSUM", format!("property list {c:#x}, t0 {:#x}", v.checksum));
+                                    }
+                                }
+                                if v.extra != xe {
+                                    let i = (0..xe.len().max(v.extra.len())).find(|i| xe.get(*i) != v.extra.get(*i)).unwrap_or(0);
+                                    out.fail(
+                                        Kind::ImplVsSpec,
+                                        "source",
+                                        "header number of the property list is not in t0: HEADER word",
+                                        format!("HEADER D {}: property list {:?}, t0 {:?} (lengths {} / {})", 18 + i, xe.get(i), v.extra.get(i), xe.len(), v.extra.len()),
+                                    );
+                                }
+                                if let (Some(b), 0) = (xf, sh.fbyte) {
+                                    if v.face != Some(b) {
+                                        out.fail(Kind::ImplVsSpec, "source", "header number of the property list is not in t0: FACE", format!("property list {b}, t0 {:?}", v.face));
+                                    }
+                                }
+                            }
+                        }
+                        // S on the source side: the characters the property list states (codes written as
+                        // O/D/H/C, dimensions as R/D reals) are the characters of t0, with the stated
+                        // dimensions when the tables are within their lossless limits, and the stated NEXTLARGER.
+                        if sh.odd == 0 && cmd == "gen" {
+                            let f = gen_font(&sh);
+                            if let Some(v) = raw_view(&t0) {
+                                let want: BTreeMap<u8, &GChar> = f.chars.iter().map(|c| (c.code, c)).collect();
+                                let got: Vec<u8> = v.chars.iter().map(|c| c.0).collect();
+                                let want_codes: Vec<u8> = want.keys().copied().collect();
+                                if f.form_seed != 0 {
+                                    out.tag("source:mixed-number-forms");
+                                }
+                                if got != want_codes {
+                                    let d = (0..=255u8).find(|c| got.contains(c) != want_codes.contains(c));
+                                    out.fail(Kind::ImplVsSpec, "source", "the characters of t0 are not the characters of the property list", format!("first difference at code {d:?}: in property list {}, in t0 {}", d.map(|c| want_codes.contains(&c)).unwrap_or(false), d.map(|c| got.contains(&c)).unwrap_or(false)));
+                                } else {
+                                    let lossless = [sh.nw <= 255, sh.nh <= 15, sh.nd <= 15, sh.ni <= 63];
+                                    'chars: for (code, dims, kind, payload) in &v.chars {
+                                        let g = want[code];
+                                        for (k, (have, stated)) in dims.iter().zip([g.wd, g.ht, g.dp, g.ic]).enumerate() {
+                                            if lossless[k] && *have != stated {
+                                                out.fail(
+                                                    Kind::ImplVsSpec,
+                                                    "source",
+                                                    format!("a dimension of the property list is not in t0: {}", ["CHARWD", "CHARHT", "CHARDP", "CHARIC"][k]),
+                                                    format!("char {code}: property list {stated}, t0 {have}"),
+                                                );
+                                                break 'chars;
+                                            }
+                                        }
+                                        if let GTag::Next(n) = g.tag {
+                                            if *kind != 2 || payload != &vec![n] {
+                                                out.fail(Kind::ImplVsSpec, "source", "NEXTLARGER of the property list is not in t0", format!("char {code}: property list {n}, t0 tag {kind} {payload:?}"));
+                                                break 'chars;
+                                            }
+                                        }
+                                    }
+                                }
+                            }
                         }
                         // S on the source side: every VARCHAR the property list states is the recipe
                         // t0 holds for that character, slot by slot.
@@ -2442,10 +2941,17 @@ impl Property for C11 {
             }
             _ => panic!("bad case {case}"),
         }
-        // failures of a case in a known defect class carry the class in their signature
-        if !self.sig_suffix.is_empty() && matches!(cmd, "tfm" | "pl" | "gen" | "raw" | "redir" | "hex" | "tprog") {
+        // A failure is attributed to a known defect class (suffix in its signature) only when the
+        // case has the recorded shape, the model of the current code reproduces the lig/kern
+        // sub-files of t1 and t2 exactly, and the failure is about the lig/kern program.
+        if !self.sig_suffix.is_empty() && self.explained && matches!(cmd, "tfm" | "pl" | "gen" | "raw" | "redir" | "hex" | "tprog") {
             for f in out.failures.iter_mut() {
-                if f.kind == Kind::ImplVsSpec && !f.signature.starts_with("header normalised") && !f.signature.contains(self.sig_suffix.trim()) {
+                let about_ligkern = matches!(f.stream.as_str(), "ligkern" | "ligkern-raw" | "ligkern-rule" | "norm-rule" | "seven-bit")
+                    || (f.stream == "trip2" && (f.signature.contains("Ligature") || f.signature.contains("ligature") || f.signature.contains("kern")))
+                    || (f.stream == "idempotent" && ["lig_kern", "char_info", "length", "kerns", "sizes"].iter().any(|x| f.signature.ends_with(x)))
+                    || (f.stream == "same-font" && (f.signature == "boundary char differs" || f.signature.starts_with("tags differ: lig") || f.signature.starts_with("tags differ: none->lig")))
+                    || (f.stream == "same-font-raw" && f.signature.starts_with("raw characters differ: tag 1") || f.signature.starts_with("raw characters differ: tag 0 -> 1"));
+                if f.kind == Kind::ImplVsSpec && about_ligkern && !f.signature.contains(self.sig_suffix.trim()) {
                     f.signature.push_str(&self.sig_suffix);
                 }
             }
@@ -2481,6 +2987,8 @@ impl Property for C11 {
                 field!(hdr);
                 field!(odd);
                 field!(vx);
+                field!(face);
+                field!(fbyte);
                 field!(hx);
                 field!(lhcut);
                 field!(nh);
@@ -2669,5 +3177,5 @@ fn main() {
         repo
     };
     let (corpus_tfm, corpus_pl) = list_corpus(&repo);
-    run(C11 { pending_raw: None, sig_suffix: String::new(), corpus_tfm, corpus_pl, repo });
+    run(C11 { explained: false, pending_raw: None, sig_suffix: String::new(), corpus_tfm, corpus_pl, repo });
 }
